@@ -211,21 +211,77 @@ def run_scenario(mod, sc: dict, keep: bool = False) -> Outcome:
         out.artifacts = ctx.artifacts
         out.nontrivial = bool(getattr(mod, "nontrivial", lambda s, c: True)(sc, ctx))
     finally:
+        try:
+            os.chdir(_HOME_CWD)
+        except OSError:
+            pass
         ctx.close()
     return out
+
+
+_HOME_CWD = os.getcwd()
+
+
+def _open_relative_then_chdir(prop, paths, kw):
+    """The files are given by RELATIVE name from inside their directory; afterwards the process moves
+    to another directory that holds same-named files with other content (per-beam directories are laid
+    out like that).  The reader must keep reading the files it was opened on."""
+    from sigpyproc.readers import FilReader
+
+    d = os.path.dirname(paths[0])
+    decoy = os.path.join(d, "elsewhere")
+    os.makedirs(decoy, exist_ok=True)
+    for p in paths:
+        with open(p, "rb") as fp:
+            raw = fp.read()
+        if len(raw) <= 1 << 16:  # same header, complemented data bytes (small files only)
+            from . import filgen
+
+            try:
+                _f, hl = filgen.parse_header(raw)
+            except filgen.HeaderError:
+                hl = len(raw)
+            with open(os.path.join(decoy, os.path.basename(p)), "wb") as fp:
+                fp.write(raw[:hl] + bytes(255 - b for b in raw[hl:]))
+    os.chdir(d)
+    try:
+        r = FilReader([os.path.basename(p) for p in paths], **kw)
+    except (SimCrash, SimLivelock):
+        raise
+    except Exception as e:  # noqa: BLE001
+        raise Violation(f"{prop}/open/reader-refused-a-valid-file-set", repr(e)[:300],
+                        {"api": "FilReader", "files": [os.path.basename(p) for p in paths], "relative": True}) from None
+    finally:
+        os.chdir(decoy if os.path.isdir(decoy) else _HOME_CWD)
+    return r
 
 
 def open_reader(prop, paths, **kw):
     """Open the harness-written (valid, contiguous unless stated) file set with the library's reader.
     A refusal here is the library failing on a valid input, i.e. a violation - not a harness error."""
+    from pathlib import Path
+
     from sigpyproc.readers import FilReader
 
+    # the documented argument forms: str | Path | Sequence[str | Path]; which one is used is a pure
+    # function of the file set (so a scenario always uses the same form)
+    variant = (len(paths) * 7 + sum(os.path.getsize(p) for p in paths)) % 7
+    if variant >= 5 and kw.pop("allow_chdir", True) and len({os.path.dirname(p) for p in paths}) == 1:
+        return _open_relative_then_chdir(prop, paths, kw)
+    kw.pop("allow_chdir", None)
+    arg = list(paths)
+    if variant == 1:
+        arg = [Path(p) for p in paths]
+    elif variant == 2 and len(paths) == 1:
+        arg = paths[0]
+    elif variant == 3 and len(paths) == 1:
+        arg = Path(paths[0])
+    elif variant == 4:
+        arg = tuple(paths)
     try:
-        return FilReader(paths, **kw)
+        return FilReader(arg, **kw)
     except (SimCrash, SimLivelock):
         raise
     except Exception as e:  # noqa: BLE001
-        import os
-
         raise Violation(f"{prop}/open/reader-refused-a-valid-file-set", repr(e)[:300],
                         {"api": "FilReader", "files": [os.path.basename(p) for p in paths]}) from None
